@@ -24,8 +24,8 @@ GUARDS = {'all': {'tie-logged': 0.08, 'batch>=2': 0.02}}
 @st.composite
 def cases(draw, tier):
     d = D(draw)
-    if d.p(4):
-        case = gen.scotland_prior_stage_case(d)
+    if d.p(5):
+        case = gen.scotland_prior_stage_case(d) if d.p(60) else gen.scotland_threeway_case(d)
         case['tie2'] = d.perm(range(1, 7))
         return case
     case = draw(gen.election_cases(tier=tier))
